@@ -131,10 +131,14 @@ PROPS = {
                      "power axioms P1-P8 on POW (real powers of non-negative bases)", "linear-scale snr > 0"],
     ),
     'C16': dict(
-        functions=[PR + 'spline_smooth'],
+        monitor_quick=[PR + 'spline_smooth', WV + 'to_function', WV + 'smooth'],
+        functions=[PR + 'spline_smooth', WV + 'to_function', WV + 'smooth'],
         level='proof',
         explanation=("Proved: spline_smooth forwards x, y and s unchanged to splrep (s omitted -> len(y)*std(y)^2; s = 0 is not replaced) "
-                     "and builds the BSpline from exactly that result. ASSUMED: FITPACK's smoothing condition and interpolation at s = 0."),
+                     "and builds the BSpline from exactly that result; Weaver.to_function fits the current processed series with exactly the given s; "
+                     "Weaver.smooth keeps x, the length, reference and original. ASSUMED: FITPACK's smoothing condition and interpolation "
+                     "at s = 0. BOUNDED: the smoothing condition itself is monitored numerically at run time (non-converged FITPACK runs "
+                     "discarded), including over operation histories that call to_function repeatedly."),
         assumptions=[A_REAL, "scipy splrep/BSpline: sum((y-g(x))^2) <= s(1+tol), interpolation for s = 0 (assumed library contract)"],
     ),
     'C17': dict(
@@ -150,8 +154,27 @@ PROPS = {
                      "the non-padding entries + first abscissa of each row; all for symbolic lengths and n."),
         assumptions=[A_REAL, A_LEN, "NumPy array-algebra contracts (linspace, flatten, repeat, insert, pad, reshape, nanmean, ...)"],
     ),
+    'C02': dict(
+        monitor_quick=['rt:weaver.pipeline'],
+        functions=[WV + '__init__', WV + 'recreate_from_average', WV + 'integral_match',
+                   'lemma:weaver.recreate_then_match_preserves_averages', 'lemma:weaver.block_average_returns_original', PR + 'average'],
+        level='proof',
+        explanation=("Composition of contracts: Weaver.__init__ keeps the original as reference; recreate_from_average (verified against "
+                     "the strategy PROTOCOL - grid_ok - which C04 proves for the five own strategies) makes the processed abscissae the "
+                     "n-fold grid over the reference abscissae and leaves the reference alone; integral_match (calls the C01 top-level "
+                     "contract) makes every reference interval integrate, under the target rule, to the rectangle integral of the "
+                     "reference; lemma 1: the closest sample to an original abscissa is the grid sample that equals it, hence the "
+                     "matched series integrates over every original interval to average * width; lemma 2 (rectangle rule, SUM_SCALE): "
+                     "the mean of each block of n samples is the original average and each block starts at the original abscissa "
+                     "(what process.average returns, C17). All m, n >= 2, both rules, symbolic data. BOUNDED: the whole pipeline on the "
+                     "real code for all six strategies, periodic extension and bundled datasets is monitored at run time."),
+        assumptions=[A_REAL, A_LEN, "strategy values play no role (any finite values on the grid are matched); the spline strategy satisfies the "
+                     "protocol at run time only", "A-kwargs: **kwargs forwarded by Weaver.integral_match / recreate_from_average contain only "
+                     "keywords the callee accepts"],
+    ),
     'C04': dict(
-        monitor_quick=[RF + c + '.rfa' for c in ('PiecewiseConstantRFA', 'FunctionRFA', 'LinearFixedRFA', 'ExpFixedRFA', 'LinearAdaptiveRFA', 'ExpAdaptiveRFA')],
+        monitor_clauses=r'_rt_c04',
+        monitor_quick=[RF + c + '.rfa' for c in ('PiecewiseConstantRFA', 'FunctionRFA', 'CubicSplineRFA', 'LinearFixedRFA', 'ExpFixedRFA', 'LinearAdaptiveRFA', 'ExpAdaptiveRFA')],
         functions=[RF + 'AbstractRFA.__init__'] + [RF + c + '.__init__' for c in ('LinearFixedRFA', 'ExpFixedRFA', 'LinearAdaptiveRFA', 'ExpAdaptiveRFA')]
         + [RF + c + '.rfa' for c in ('PiecewiseConstantRFA', 'FunctionRFA', 'LinearFixedRFA', 'ExpFixedRFA', 'LinearAdaptiveRFA', 'ExpAdaptiveRFA')]
         + [RF + 'LinearAdaptiveRFA.get_adaptive_transition_points']
@@ -162,6 +185,52 @@ PROPS = {
                      "spacing in between) proved as the postcondition of each strategy's rfa() for symbolic m and n; the constructors "
                      "raise ValueError exactly when n < 2."),
         assumptions=[A_REAL, A_LEN],
+    ),
+    'C05': dict(
+        monitor_clauses=r'_rt_c05',
+        monitor_quick=[RF + c + '.rfa' for c in ('ExpFixedRFA', 'LinearAdaptiveRFA', 'ExpAdaptiveRFA', 'CubicSplineRFA', 'LinearFixedRFA')],
+        functions=[RF + 'LinearFixedRFA.rfa', RF + 'PiecewiseConstantRFA.rfa', 'lemma:rfa.linear_fixed.bounds', 'lemma:rfa.linear_fixed.monotone',
+                   RF + 'LinearAdaptiveRFA.get_adaptive_transition_points']
+        + [RF + c + '.__init__' for c in ('LinearFixedRFA', 'ExpFixedRFA', 'LinearAdaptiveRFA', 'ExpAdaptiveRFA')],
+        level='proof',
+        explanation=("PROVED for LinearFixedRFA and PiecewiseConstantRFA, all series / spacings / n / windows: the code computes the "
+                     "closed form fv (postcondition linf_values, loop invariants over the extended grid); lemmas over fv: plateau at the "
+                     "average on samples a_l..n-a_r (at most a-1 samples differ), every transition sample between the interval's average "
+                     "and the neighbour's on its side, monotone steps towards the plateau; window fields of all four constructors; "
+                     "adaptive window sizes within 0..a. BOUNDED (run-time monitoring, not proof) for ExpFixedRFA, LinearAdaptiveRFA, "
+                     "ExpAdaptiveRFA and the spline strategy: generated objects with ties, non-uniform spacing, explicit windows."),
+        assumptions=[A_REAL, A_LEN, "values of ExpFixedRFA / LinearAdaptiveRFA / ExpAdaptiveRFA / CubicSplineRFA: bounded run-time monitoring only",
+                     "SciPy CubicSpline: assumed interpolating (trusted dependency)"],
+    ),
+    'C06': dict(
+        monitor_clauses=r'_rt_c06',
+        monitor_quick=[RF + c + '.rfa' for c in ('ExpFixedRFA', 'LinearAdaptiveRFA', 'ExpAdaptiveRFA', 'LinearFixedRFA')],
+        functions=[M + 'funfit.' + f for f in ('lin_fit', 'exp_fit', 'exp_xy_fit', 'exp_lin_fit', 'lin_exp_xy_fit')]
+        + [RF + 'LinearFixedRFA.rfa', RF + 'LinearAdaptiveRFA.get_adaptive_transition_points']
+        + [RF + c + '.__init__' for c in ('LinearFixedRFA', 'ExpFixedRFA', 'LinearAdaptiveRFA', 'ExpAdaptiveRFA')],
+        level='proof',
+        explanation=("PROVED: the five shape functions equal their closed forms for every exponent and hit both end points; "
+                     "LinearFixedRFA: border value = straight line between the plateau ends of the adjacent intervals taken at the "
+                     "border, transition samples on the straight line between border value and plateau (closed form fv for symbolic m, "
+                     "n, window); adaptive windows: the four cases of the split (both / one / no neighbour differing), trunc-clip "
+                     "formula with gamma = (right jump / left jump)^smooth, and for smooth = 1 the side with the larger jump never "
+                     "gets the larger window. BOUNDED: border values and shapes of ExpFixedRFA and the application of the windows in "
+                     "the adaptive strategies (run-time monitoring)."),
+        assumptions=[A_REAL, A_LEN, "power axioms P1-P8 for POW(r, a)", "ExpFixedRFA / adaptive strategies' values: bounded run-time monitoring only"],
+    ),
+    'C07': dict(
+        monitor_clauses=r'_rt_c07',
+        monitor_quick=[RF + c + '.rfa' for c in ('PiecewiseConstantRFA', 'LinearFixedRFA', 'ExpFixedRFA', 'LinearAdaptiveRFA', 'ExpAdaptiveRFA', 'CubicSplineRFA')],
+        functions=[RF + 'LinearFixedRFA.rfa', RF + 'PiecewiseConstantRFA.rfa', 'lemma:rfa.linear_fixed.equivariance_y', 'lemma:rfa.linear_fixed.equivariance_x',
+                   'lemma:rfa.linear_fixed.locality'],
+        level='proof',
+        explanation=("PROVED for LinearFixedRFA (relational lemmas over the closed form the code is proved to compute, two strategy "
+                     "objects on related data): y -> al*y + be and x -> c*x + d (c > 0) commute with recreation for all real al, be, c, d "
+                     "(hence an affine map of the averages with weights summing to one); a value of an interval reads only that "
+                     "interval's and the two adjacent averages. PiecewiseConstantRFA: values are the averages themselves. BOUNDED "
+                     "(run-time metamorphic monitoring with exactly representable maps, one-average perturbations) for the other "
+                     "strategies."),
+        assumptions=[A_REAL, A_LEN, "non-negativity of the weights is the C05 bounds lemma; other strategies: bounded run-time monitoring only"],
     ),
     'C08': dict(
         monitor_quick=WEAVER_MUTATORS,
